@@ -922,5 +922,324 @@ theorem intro_inputs (a : AS) (is : List AInput) (s : Schema)
     · cases hone : i.isOneOf <;> simp [storedInput, hone]
     · exact fun i' hi' => hf i' (by simp [hi'])
 
+/-! ## assembly, introspection side -/
+
+theorem intro_rootOf (s : Schema) (r : Option String) : Intro.rootOf s (r.map some) = rootId s.names r := by
+  cases r <;> rfl
+
+/-- the `__schema` value with the given `types` array and `a`'s roots -/
+def introSchemaOf (a : AS) (l : List (Option FullType)) : IntroSchema :=
+  { queryType := a.query.map some, mutationType := a.mutation.map some,
+    subscriptionType := a.subscription.map some, types := some l }
+
+/-- **the introspection front-end computes `a.toSchema`** on every introspection rendering of a
+well-formed `a` (`l` may contain `null` entries) -/
+theorem intro_spec (a : AS) (l : List (Option FullType)) (hw : WfAS a) (hi : IsIntroOf a (l.filterMap id)) :
+    Intro.fromIntro true (some (introSchemaOf a l)) = .ok a.toSchema := by
+  obtain ⟨hn, hif, hof, him, hun, hinp⟩ := hw
+  have L := lookups a hn
+  have hfld : ∀ t : GTy, t.base ∈ a.known → ∃ id, namesGet t.base a.names = some id := fun t h => L.known _ h
+  unfold Intro.fromIntro
+  simp only [introSchemaOf, Intro.typesOf, intro_buildNames a _ hi, hi.scalars, hi.enums, hi.ifaces, hi.objects,
+    hi.unions, hi.inputs, bind, Except.bind, pure, Except.pure]
+  rw [intro_scalars, schema_new]
+  simp only [List.length_cons, List.length_nil, Schema.defaultScalars, Nat.zero_add, Nat.reduceAdd]
+  rw [← Schema.defaultScalars.eq_def, intro_enums]
+  simp only [List.length_nil]
+  rw [← AS.enumNames.eq_def, intro_names a hn]
+  rw [intro_ifaces a _ 0 _ ?hi1 ?hi2]; simp only []
+  rw [intro_objs a _ 0 _ ?ho1 ?ho2 ?ho3]; simp only []
+  rw [intro_unions a _ _ ?hu]; simp only []
+  rw [intro_inputs a _ _ ?hin]; simp only []
+  case hu => exact fun u hu m hm => L.known m (hun u hu m hm)
+  case hi1 => exact L.iface
+  case hi2 => exact fun i hi f hf => hfld _ (hif i hi f hf)
+  case ho1 => exact L.obj
+  case ho2 => exact fun o ho f hf => hfld _ (hof o ho f hf)
+  case ho3 => exact fun o ho n hn' => L.impl n (him o ho n hn')
+  case hin => exact fun i hi f hf => hfld _ (hinp i hi f hf)
+  simp only [intro_rootOf, List.nil_append, List.length_nil]
+  rfl
+
+/-! ## whole-schema agreement -/
+
+/-- **C07, general form.**  For every well-formed abstract schema, *every* SDL rendering and *every*
+introspection rendering (kinds interleaved in any way) are converted to literally the same value. -/
+theorem frontends_equal_of_renderings (a : AS) (doc : SdlDoc) (l : List (Option FullType))
+    (hw : WfAS a) (hd : IsSdlOf a doc) (hi : IsIntroOf a (l.filterMap id)) :
+    Sdl.fromSdl doc = Intro.fromIntro true (some (introSchemaOf a l)) :=
+  (sdl_spec a doc hw hd).trans (intro_spec a l hw hi).symm
+
+/-! ### one concrete rendering each -/
+
+/-- SDL rendering: optional `schema` block, then scalars, enums, unions, interfaces, objects, inputs -/
+def sdlOf (explicitRoots : Bool) (a : AS) : SdlDoc :=
+  (if explicitRoots then [SdlDef.schemaDef a.query a.mutation a.subscription] else []) ++
+  a.scalars.map .scalar ++ a.enums.map sdlEnum ++ a.unions.map sdlUnion ++ a.interfaces.map sdlIface ++
+  a.objects.map sdlObj ++ a.inputs.map sdlInput
+
+/-- `__schema.types`: the listed built-in scalars `bs`, then custom scalars, enums, interfaces, objects,
+unions, inputs -/
+def introTypes (bs : List String) (a : AS) : List FullType :=
+  bs.map introScalar ++ a.scalars.map introScalar ++ a.enums.map introEnum ++ a.interfaces.map (introIface a) ++
+  a.objects.map (introObj a) ++ a.unions.map (introUnion a) ++ a.inputs.map (introInput a)
+
+/-- introspection rendering (`bs` = the built-in scalars the server lists) -/
+def introOf (bs : List String) (a : AS) : IntroSchema := introSchemaOf a ((introTypes bs a).map some)
+
+theorem filter_map_const {α β} (l : List α) (r : α → β) (P : β → Bool) (b : Bool) (h : ∀ x ∈ l, P (r x) = b) :
+    (l.map r).filter P = if b then l.map r else [] := by
+  cases b
+  · simp only [Bool.false_eq_true, if_false, List.filter_eq_nil_iff, List.mem_map]
+    rintro _ ⟨x, hx, rfl⟩; simp [h x hx]
+  · simp only [if_true, List.filter_eq_self, List.mem_map]
+    rintro _ ⟨x, hx, rfl⟩; exact h x hx
+
+theorem isSdlOf_sdlOf (a : AS) (ex : Bool) (hex : ex = true ∨ a.DefaultRoots) : IsSdlOf a (sdlOf ex a) := by
+  have hpass : ∀ p, ofPass (sdlOf ex a) p =
+      (if (0 == p) = true then a.scalars.map .scalar else []) ++ (if (1 == p) = true then a.enums.map sdlEnum else []) ++
+      (if (2 == p) = true then a.unions.map sdlUnion else []) ++ (if (3 == p) = true then a.interfaces.map sdlIface else []) ++
+      (if (4 == p) = true then a.objects.map sdlObj else []) ++ (if (6 == p) = true then a.inputs.map sdlInput else []) := by
+    intro p
+    have h0 : ofPass (if ex then [SdlDef.schemaDef a.query a.mutation a.subscription] else []) p = [] := by
+      cases ex <;> simp [ofPass, passOf]
+    simp only [ofPass, sdlOf, List.filter_append] at h0 ⊢
+    rw [h0, filter_map_const _ _ _ (0 == p) (fun _ _ => by simp [passOf]),
+      filter_map_const _ sdlEnum _ (1 == p) (fun _ _ => by simp [passOf, sdlEnum]),
+      filter_map_const _ sdlUnion _ (2 == p) (fun _ _ => by simp [passOf, sdlUnion]),
+      filter_map_const _ sdlIface _ (3 == p) (fun _ _ => by simp [passOf, sdlIface]),
+      filter_map_const _ sdlObj _ (4 == p) (fun _ _ => by simp [passOf, sdlObj]),
+      filter_map_const _ sdlInput _ (6 == p) (fun _ _ => by simp [passOf, sdlInput])]
+    simp
+  refine ⟨by simp [hpass], by simp [hpass], by simp [hpass], by simp [hpass], by simp [hpass], by simp [hpass],
+    by simp [hpass], ?_⟩
+  cases ex
+  · right
+    refine ⟨?_, by simpa using hex⟩
+    simp only [schemaBlock, List.findSome?_eq_none_iff, sdlOf, Bool.false_eq_true, if_false, List.nil_append,
+      List.mem_append, List.mem_map]
+    rintro d (((((⟨x, _, rfl⟩ | ⟨x, _, rfl⟩) | ⟨x, _, rfl⟩) | ⟨x, _, rfl⟩) | ⟨x, _, rfl⟩) | ⟨x, _, rfl⟩) <;> rfl
+  · left; simp [schemaBlock, sdlOf]
+
+/-- the pure form of `isCustomScalar` on entries that have a name -/
+def customScalar (t : FullType) : Bool :=
+  t.kind == some "SCALAR" && match t.name with
+    | some n => !Schema.defaultScalars.contains n
+    | none => false
+
+theorem isCustomScalar_ok (t : FullType) (n : String) (h : t.name = some n) :
+    Intro.isCustomScalar t = .ok (customScalar t) := by
+  unfold Intro.isCustomScalar customScalar
+  split <;> simp_all [pure, Except.pure]
+
+theorem filterMap_id_map_some {α} (l : List α) : (l.map some).filterMap id = l := by
+  induction l with
+  | nil => rfl
+  | cons x l ih => simp
+
+theorem isIntroOf_introTypes (a : AS) (bs : List String) (hn : a.known.Nodup)
+    (hbs : ∀ b ∈ bs, b ∈ Schema.defaultScalars) : IsIntroOf a (introTypes bs a) := by
+  have hcustom : ∀ n ∈ a.scalars, n ∉ Schema.defaultScalars := by
+    intro n hn' hd
+    simp only [AS.known, List.append_assoc] at hn
+    exact (List.nodup_append.1 hn).2.2 n hd n (by simp [hn']) rfl
+  have hkind : ∀ k, Intro.ofKind (introTypes bs a) k =
+      (if ("SCALAR" == k) = true then bs.map introScalar ++ a.scalars.map introScalar else []) ++
+      (if ("ENUM" == k) = true then a.enums.map introEnum else []) ++
+      (if ("INTERFACE" == k) = true then a.interfaces.map (introIface a) else []) ++
+      (if ("OBJECT" == k) = true then a.objects.map (introObj a) else []) ++
+      (if ("UNION" == k) = true then a.unions.map (introUnion a) else []) ++
+      (if ("INPUT_OBJECT" == k) = true then a.inputs.map (introInput a) else []) := by
+    intro k
+    simp only [Intro.ofKind, introTypes, List.filter_append]
+    rw [filter_map_const bs introScalar _ ("SCALAR" == k) (fun _ _ => by simp [introScalar]),
+      filter_map_const a.scalars introScalar _ ("SCALAR" == k) (fun _ _ => by simp [introScalar]),
+      filter_map_const _ introEnum _ ("ENUM" == k) (fun _ _ => by simp [introEnum]),
+      filter_map_const _ (introIface a) _ ("INTERFACE" == k) (fun _ _ => by simp [introIface]),
+      filter_map_const _ (introObj a) _ ("OBJECT" == k) (fun _ _ => by simp [introObj]),
+      filter_map_const _ (introUnion a) _ ("UNION" == k) (fun _ _ => by simp [introUnion]),
+      filter_map_const _ (introInput a) _ ("INPUT_OBJECT" == k) (fun _ _ => by simp [introInput])]
+    cases "SCALAR" == k <;> simp
+  refine ⟨?_, by simp [hkind], by simp [hkind], by simp [hkind], by simp [hkind], by simp [hkind]⟩
+  have hname : ∀ t ∈ introTypes bs a, Intro.isCustomScalar t = .ok (customScalar t) := by
+    intro t ht
+    simp only [introTypes, List.mem_append, List.mem_map] at ht
+    rcases ht with (((((⟨x, _, rfl⟩ | ⟨x, _, rfl⟩) | ⟨x, _, rfl⟩) | ⟨x, _, rfl⟩) | ⟨x, _, rfl⟩) | ⟨x, _, rfl⟩) |
+      ⟨x, _, rfl⟩ <;> exact isCustomScalar_ok _ _ rfl
+  rw [filterM_ok _ _ _ hname]
+  simp only [introTypes, List.filter_append]
+  rw [filter_map_const bs introScalar _ false (fun b hb => by
+        have := hbs b hb
+        simp [customScalar, introScalar, this]),
+    filter_map_const a.scalars introScalar _ true (fun n hn' => by
+        have := hcustom n hn'
+        simp [customScalar, introScalar, this]),
+    filter_map_const _ introEnum _ false (fun _ _ => by simp [customScalar, introEnum]),
+    filter_map_const _ (introIface a) _ false (fun _ _ => by simp [customScalar, introIface]),
+    filter_map_const _ (introObj a) _ false (fun _ _ => by simp [customScalar, introObj]),
+    filter_map_const _ (introUnion a) _ false (fun _ _ => by simp [customScalar, introUnion]),
+    filter_map_const _ (introInput a) _ false (fun _ _ => by simp [customScalar, introInput])]
+  simp
+
+/-- **C07, whole-schema agreement** (`frontends_equal`).  For every well-formed abstract schema `a`
+(without `extend type`), the SDL front-end on the SDL rendering and the introspection front-end on the
+introspection rendering return literally the same `Outcome Schema`.
+Parameters of the renderings: `ex` — the SDL has an explicit `schema { … }` block (it may be omitted when the
+roots are the default ones); `bs` — the built-in scalars listed among `__schema.types`. -/
+theorem frontends_equal (a : AS) (ex : Bool) (bs : List String) (hw : WfAS a)
+    (hex : ex = true ∨ a.DefaultRoots) (hbs : ∀ b ∈ bs, b ∈ Schema.defaultScalars) :
+    Sdl.fromSdl (sdlOf ex a) = Intro.fromIntro true (some (introOf bs a)) :=
+  frontends_equal_of_renderings a _ _ hw (isSdlOf_sdlOf a ex hex)
+    (by rw [filterMap_id_map_some]; exact isIntroOf_introTypes a bs hw.1 hbs)
+
+/-- the closed form of that common value -/
+theorem frontends_value (a : AS) (ex : Bool) (bs : List String) (hw : WfAS a)
+    (hex : ex = true ∨ a.DefaultRoots) (hbs : ∀ b ∈ bs, b ∈ Schema.defaultScalars) :
+    Sdl.fromSdl (sdlOf ex a) = .ok a.toSchema ∧ Intro.fromIntro true (some (introOf bs a)) = .ok a.toSchema :=
+  ⟨sdl_spec a _ hw (isSdlOf_sdlOf a ex hex),
+   intro_spec a _ hw (by rw [filterMap_id_map_some]; exact isIntroOf_introTypes a bs hw.1 hbs)⟩
+
+/-- the statement in its plainest form: explicit `schema` block, all five built-in scalars listed -/
+theorem frontends_equal' (a : AS) (hw : WfAS a) :
+    Sdl.fromSdl (sdlOf true a) = Intro.fromIntro true (some (introOf Schema.defaultScalars a)) :=
+  frontends_equal a true _ hw (.inl rfl) (fun _ h => h)
+
+/-! ## a concrete instance
+
+An interface with two implementors, a union, an enum, a custom scalar, a `@oneOf` input, a recursive
+input, deprecated fields (with and without reason), explicit non-default roots. -/
+
+def exCharacterFields : List AField :=
+  [⟨"id", .nonNull (.named "ID"), none⟩, ⟨"name", .named "String", none⟩,
+   ⟨"friends", .list (.named "Character"), some (some "use friendsConnection")⟩]
+
+def exAS : AS :=
+  { scalars := ["DateTime"]
+    enums := [⟨"Episode", ["NEWHOPE", "EMPIRE", "JEDI"]⟩]
+    interfaces := [⟨"Character", exCharacterFields⟩]
+    objects :=
+      [⟨"Human", ["Character"],
+          exCharacterFields ++ [⟨"height", .named "Float", some none⟩, ⟨"born", .named "DateTime", none⟩]⟩,
+       ⟨"Droid", ["Character"],
+          exCharacterFields ++ [⟨"appearsIn", .nonNull (.list (.nonNull (.named "Episode"))), none⟩]⟩,
+       ⟨"QueryRoot", [], [⟨"hero", .named "Character", none⟩,
+                          ⟨"search", .nonNull (.list (.nonNull (.named "SearchResult"))), none⟩]⟩,
+       ⟨"MutationRoot", [], [⟨"rate", .named "Episode", none⟩]⟩]
+    unions := [⟨"SearchResult", ["Human", "Droid"]⟩]
+    inputs := [⟨"ById", true, [("id", .named "ID"), ("name", .named "String")]⟩,
+               ⟨"ReviewInput", false, [("stars", .nonNull (.named "Int")), ("episode", .named "Episode"),
+                                       ("by", .named "ById"), ("more", .list (.nonNull (.named "ReviewInput")))]⟩]
+    query := some "QueryRoot", mutation := some "MutationRoot", subscription := none }
+
+/-- the value both front-ends must produce for `exAS`, written out -/
+def exSchema : Schema :=
+  { objects := [{ name := "Human", fields := [3, 4, 5, 6, 7], implements := [0] },
+                { name := "Droid", fields := [8, 9, 10, 11], implements := [0] },
+                { name := "QueryRoot", fields := [12, 13], implements := [] },
+                { name := "MutationRoot", fields := [14], implements := [] }],
+    fields := [{ name := "id", ty := { id := .scalar 0, quals := [.required] }, parent := .interface 0, deprecation := none },
+               { name := "name", ty := { id := .scalar 1, quals := [] }, parent := .interface 0, deprecation := none },
+               { name := "friends", ty := { id := .interface 0, quals := [.list] }, parent := .interface 0,
+                 deprecation := some (some "use friendsConnection") },
+               { name := "id", ty := { id := .scalar 0, quals := [.required] }, parent := .object 0, deprecation := none },
+               { name := "name", ty := { id := .scalar 1, quals := [] }, parent := .object 0, deprecation := none },
+               { name := "friends", ty := { id := .interface 0, quals := [.list] }, parent := .object 0,
+                 deprecation := some (some "use friendsConnection") },
+               { name := "height", ty := { id := .scalar 3, quals := [] }, parent := .object 0, deprecation := some none },
+               { name := "born", ty := { id := .scalar 5, quals := [] }, parent := .object 0, deprecation := none },
+               { name := "id", ty := { id := .scalar 0, quals := [.required] }, parent := .object 1, deprecation := none },
+               { name := "name", ty := { id := .scalar 1, quals := [] }, parent := .object 1, deprecation := none },
+               { name := "friends", ty := { id := .interface 0, quals := [.list] }, parent := .object 1,
+                 deprecation := some (some "use friendsConnection") },
+               { name := "appearsIn", ty := { id := .enum 0, quals := [.required, .list, .required] },
+                 parent := .object 1, deprecation := none },
+               { name := "hero", ty := { id := .interface 0, quals := [] }, parent := .object 2, deprecation := none },
+               { name := "search", ty := { id := .union 0, quals := [.required, .list, .required] },
+                 parent := .object 2, deprecation := none },
+               { name := "rate", ty := { id := .enum 0, quals := [] }, parent := .object 3, deprecation := none }],
+    interfaces := [{ name := "Character", fields := [0, 1, 2] }],
+    unions := [{ name := "SearchResult", variants := [.object 0, .object 1] }],
+    scalars := ["ID", "String", "Int", "Float", "Boolean", "DateTime"],
+    enums := [{ name := "Episode", variants := ["NEWHOPE", "EMPIRE", "JEDI"] }],
+    inputs := [{ name := "ById",
+                 fields := [("id", { id := .scalar 0, quals := [] }), ("name", { id := .scalar 1, quals := [] })],
+                 isOneOf := true },
+               { name := "ReviewInput",
+                 fields := [("stars", { id := .scalar 2, quals := [.required] }),
+                            ("episode", { id := .enum 0, quals := [] }), ("by", { id := .input 0, quals := [] }),
+                            ("more", { id := .input 1, quals := [.list, .required] })],
+                 isOneOf := false }],
+    names := [("Boolean", .scalar 4), ("ById", .input 0), ("Character", .interface 0), ("DateTime", .scalar 5),
+              ("Droid", .object 1), ("Episode", .enum 0), ("Float", .scalar 3), ("Human", .object 0),
+              ("ID", .scalar 0), ("Int", .scalar 2), ("MutationRoot", .object 3), ("QueryRoot", .object 2),
+              ("ReviewInput", .input 1), ("SearchResult", .union 0), ("String", .scalar 1)],
+    queryType := some 2, mutationType := some 3, subscriptionType := none }
+
+example : WfAS exAS := by decide
+/-- both sides *evaluate* (kernel computation, independent of the theorems) to the same value … -/
+example : (Sdl.fromSdl (sdlOf true exAS)).toOption = some exSchema := by decide
+example : (Intro.fromIntro true (some (introOf ["ID", "Int"] exAS))).toOption = some exSchema := by decide
+/-- … which is the closed form, and the theorem applies -/
+example : exAS.toSchema = exSchema := by decide
+example : Sdl.fromSdl (sdlOf true exAS) = Intro.fromIntro true (some (introOf ["ID", "Int"] exAS)) :=
+  frontends_equal exAS true _ (by decide) (.inl rfl) (by decide)
+
+/-- the same abstract schema rendered with the kinds interleaved: the objects first, the `schema` block in
+the middle, a directive definition (`other`) in between; and an introspection list in yet another order,
+with built-in scalars, a `null` entry and an entry of unknown kind in between -/
+def exDocShuffled : SdlDoc :=
+  (exAS.objects.map sdlObj).take 2 ++ [.other] ++ exAS.inputs.map sdlInput ++
+  [SdlDef.schemaDef (some "QueryRoot") (some "MutationRoot") none] ++ exAS.interfaces.map sdlIface ++
+  (exAS.objects.map sdlObj).drop 2 ++ exAS.unions.map sdlUnion ++ exAS.scalars.map .scalar ++
+  exAS.enums.map sdlEnum
+
+def exTypesShuffled : List (Option FullType) :=
+  (exAS.inputs.map (fun i => some (introInput exAS i))) ++ [some (introScalar "Boolean"), none] ++
+  (exAS.objects.map (fun o => some (introObj exAS o))).take 3 ++ exAS.enums.map (fun e => some (introEnum e)) ++
+  [some { introScalar "__Directive" with kind := some "FUTURE_KIND" }] ++
+  exAS.unions.map (fun u => some (introUnion exAS u)) ++ exAS.scalars.map (fun n => some (introScalar n)) ++
+  (exAS.objects.map (fun o => some (introObj exAS o))).drop 3 ++
+  exAS.interfaces.map (fun i => some (introIface exAS i)) ++ [some (introScalar "String")]
+
+example : IsSdlOf exAS exDocShuffled :=
+  ⟨by decide, by decide, by decide, by decide, by decide, by decide, by decide, .inl (by decide)⟩
+example : IsIntroOf exAS (exTypesShuffled.filterMap id) := ⟨by rfl, by rfl, by rfl, by rfl, by rfl, by rfl⟩
+example : (Sdl.fromSdl exDocShuffled).toOption = some exSchema := by decide
+example : (Intro.fromIntro true (some (introSchemaOf exAS exTypesShuffled))).toOption = some exSchema := by decide
+
+/-! ## the hypotheses cannot be dropped
+
+None of these is a defect of the code: each abstract schema below is ill-formed GraphQL (or, for the third,
+the two renderings do not describe the same schema).  They show that `WfAS` is not stronger than needed. -/
+
+/-- a custom scalar with a built-in name: the SDL path pushes a sixth scalar and re-binds the name, the
+JSON path drops every `SCALAR` entry with a built-in name -/
+example : ¬ WfAS { scalars := ["Int"] } ∧
+    (Sdl.fromSdl (sdlOf true { scalars := ["Int"] })).toOption.map (·.scalars.length) = some 6 ∧
+    (Intro.fromIntro true (some (introOf [] { scalars := ["Int"] }))).toOption.map (·.scalars.length) = some 5 := by
+  decide
+
+/-- the same name for an enum and an object: the SDL path inserts enum names *before* object names, the
+JSON path *after*; the last insertion wins, and the JSON path then panics in `ingest_object` -/
+example : ¬ WfAS { enums := [⟨"E", ["A"]⟩], objects := [⟨"E", [], []⟩] } ∧
+    (Sdl.fromSdl (sdlOf true { enums := [⟨"E", ["A"]⟩], objects := [⟨"E", [], []⟩] })).toOption.isSome = true ∧
+    (Intro.fromIntro true (some (introOf [] { enums := [⟨"E", ["A"]⟩], objects := [⟨"E", [], []⟩] }))).toOption =
+      none := by
+  decide
+
+/-- no `schema` block but roots that are not the default ones: SDL falls back to the name `Query` -/
+example : WfAS { objects := [⟨"Query", [], []⟩] } ∧ ¬ AS.DefaultRoots { objects := [⟨"Query", [], []⟩] } ∧
+    (Sdl.fromSdl (sdlOf false { objects := [⟨"Query", [], []⟩] })).toOption.map (·.queryType) = some (some 0) ∧
+    (Intro.fromIntro true (some (introOf [] { objects := [⟨"Query", [], []⟩] }))).toOption.map (·.queryType) =
+      some none := by
+  decide
+
+/-- a field of an undefined type: both paths panic, with different messages -/
+example :
+    Sdl.fromSdl (sdlOf true { objects := [⟨"O", [], [⟨"f", .named "Nope", none⟩]⟩] }) =
+      .error (.panic "failed to resolve TypeId for `Nope`") ∧
+    Intro.fromIntro true (some (introOf [] { objects := [⟨"O", [], [⟨"f", .named "Nope", none⟩]⟩] })) =
+      .error (.panic "schema.names.get(name)") := ⟨by rfl, by rfl⟩
+
 end C07
 end GqlVerif
